@@ -486,19 +486,33 @@ func c18Explore(res *Result, raw json.RawMessage, job *Job) {
 				timedOut = true
 				return
 			}
+			// variants: no interference, or a main-space resident is retired (a concurrent Invalidate: the node stays
+			// linked, dead, until its delete event is applied) right after the first / second eviction of the pass
+			type variant struct{ key, after int }
+			variants := []variant{{-1, 0}}
+			for _, n := range nodes {
+				if n.Queue != "window" {
+					variants = append(variants, variant{n.Key, 1}, variant{n.Key, 2})
+				}
+			}
 			for _, newMax := range []uint64{1, 2, 3, 5, 8} {
+			for _, vr := range variants {
+				vr := vr
 				vdet.Reset()
 				// every key in its own sketch block so that estimates are independent
 				vdet.HashFn = func(seed uint64, key any) uint64 { return uint64(key.(int)+1) * 0x9e3779b97f4a7c15 }
-				ev, fr, surv, ok := otter.VerifEvictLayout(100, newMax, nodes)
+				ev, fr, surv, ok := otter.VerifEvictLayoutRetire(100, newMax, nodes, vr.key, vr.after)
 				if !ok {
 					res.Counters["hook-unavailable"]++
 					return
 				}
+				if vr.key >= 0 && len(ev) > vr.after {
+					res.Counters["retired-mid-pass"]++
+				}
 				res.Executions++
 				res.Steps += int64(len(ev))
 				Progress.Add(1)
-				ops := []string{fmt.Sprintf("layout %+v, maximum 100 -> %d: evicted %+v, survivors %v", nodes, newMax, ev, surv)}
+				ops := []string{fmt.Sprintf("layout %+v, maximum 100 -> %d, key %d retired after eviction %d (-1: none): evicted %+v, survivors %v", nodes, newMax, vr.key, vr.after, ev, surv)}
 				origin := map[int]bool{}
 				weight := map[int]uint32{}
 				for _, n := range nodes {
@@ -518,6 +532,9 @@ func c18Explore(res *Result, raw json.RawMessage, job *Job) {
 						return true
 					}
 					k := ev[i].Key
+					if vr.key >= 0 && i >= vr.after && k == vr.key {
+						return search(i+1, u) // a retired (dead) node is evicted without an admission decision
+					}
 					without := func(x int) []int {
 						var out []int
 						for _, y := range u {
@@ -547,7 +564,8 @@ func c18Explore(res *Result, raw json.RawMessage, job *Job) {
 					fail("displaced-without-higher-estimate", "evictNodes", ops, "no assignment of winners explains the evictions: a main-space resident was displaced while a window-origin entry with a lower or equal estimate was still undecided (estimates %v)", fr)
 				}
 				// the bound itself and the zero-weight rule are C04's; here only the admission order is judged
-				states[fmt.Sprint(nodes, newMax)] = struct{}{}
+				states[fmt.Sprint(nodes, newMax, vr)] = struct{}{}
+			}
 			}
 		}
 	case "admit":
